@@ -18,11 +18,11 @@ def HEX2DEC(hex):
 
 @dispatcher.register_for('DEC2HEX')
 def DEC2HEX(dec, places=DEFAULT):
-    dec = utils.parse_number(dec)
+    dec = utils.parse_integer(dec)
     if isinstance(dec, error.XLError):
         return dec
     if places is not DEFAULT:
-        places = utils.parse_number(places)
+        places = utils.parse_integer(places)
         if isinstance(places, error.XLError):
             return places
         if places < 0:
